@@ -43,8 +43,8 @@ P = {
   "Decides: arguments outside [-pi/2,pi/2] / [-2,2] never reach a normal return of proj/unproj. Necessary: the longitude reduction yields offset in [0,7] and remainder in [-1,1] for up to 8 turns; base_cell_from_proj_coo read as a lookup table equals the topology model on 48 points including the diagonal seams. The formulae and the inverse property are not decided. Also: the table is read on the outer edges of the polar facets and at the poles (one of the base cells meeting there); the edge clamp is two-sided. Also: the threshold below which unproj skips the division by sqrt(3(1-|z|)) excludes 0 and costs at most 0.6413 * threshold <= 1e-14 rad; the lookup table is also read in the dev profile and at x = 8.", "§5 C17"),
  "C18": ("proof", "E5 GF(2)-affine bit-vector abstract interpretation of every ZOrderCurve impl + E4 dispatch extraction + per-depth symbolic uniq round trip",
   "Every clause of the statement is decided for all inputs: for each implementation in the default, +bmi2 (and cfg(test)) builds the derived bit-vector of i02h/oj2h/ij2h/ij2i∘h2ij/ij2j∘h2ij equals the interleave specification on the coordinate width the dispatcher uses it for; get_zoc's selection is extracted for the 30 depths and rejects depth > 29; uniq and IVOA uniq round trips hold per depth with the hash symbolic.", "§5 C18"),
- "C19": ("proof", "E6 polynomial identities over (dx, dy) per arm + E4 arm extraction + rotate-scale identity + E9",
-  "For each of the 8 arms the weights are extracted as polynomials in (dx, dy): their sum is identically 1, each is non-negative on the arm's box, the barycentre identities hold with the verified direction offsets, the missing corner carries weight 0. Also: shift_rotate_scale scales by nside/2 at every depth incl. 0; no cancelling form.", "§5 C19"),
+ "C19": ("other", "E6 polynomial identities over (dx, dy) per arm + E4 arm extraction + rotate-scale identity + E9",
+  "For each of the 8 arms the weights are extracted as polynomials in (dx, dy): their sum is identically 1, each is non-negative on the arm's box, the barycentre identities hold with the verified direction offsets, the missing corner carries weight 0. Also: shift_rotate_scale scales by nside/2 at every depth incl. 0; no cancelling form. The identities are proved for all (dx, dy); that the cell and the offsets handed to the weights by hash_with_dxdy are the right ones, and that the neighbour tables are right, is decided (as far as it is) under C03 and C04 — three defects repaired there (F16, F17, F19) changed the result of bilinear_interpolation while these identities held, which is why the level claimed is not 'proof'.", "§5 C19"),
  "C20": ("proof", "typestate + must-facts (dominance) analysis of every access to the crate's `static mut` items under std::sync::Once",
   "Every access to LAYERS / CSTS_C2V in the crate is either the single write inside the closure given to call_once on the paired Once slot with the same index, or a read at a point where call_once on that slot has returned on every path; the constructors have one call site; the pointer to the static never escapes; the shared types have no interior mutability and no &mut self method. With Once's contract this is the property for every interleaving.", "§5 C20"),
 }
